@@ -24,6 +24,10 @@ Tie:   T — Generated/SyncShape.lean (critical-section structure of every metho
            Validities at the far end of the time axis (beyond 2262-04-11, where int64 Unix nanoseconds end; clock + MaxInt64 ns)
            are part of the cache programs, the bwrecv programs and the stress rounds: live for Load / LoadOrStore / the sweep
            (Props/C14Validity.lean).
+           Tables that have GROWN (1024 / 1025 / 2048 / 2049 … entries, pre-filled by the bulk operation `fill:<n>:<base>:<v>` =
+           n Stores): the whole-table operations (CopyData, LoadAndDeleteAll, Range2, Length) against a writer that touches
+           several keys one after the other - what a copy returns is the content at ONE instant, however big the table
+           (Props/C14Copy.lean; listings abbreviate runs `a..b=v`).
            A panic of the code under test is the schedule's observation (r<t>:panic:…): reported with program and schedule.
        X (limiter, for C16) — limiter_check: the real parallel-request limiter over the cooperative map (harness/c14/limiter_test.go),
            judged by C16's driver; called from checks/c16.py, violations are reported under C16.
@@ -40,7 +44,7 @@ from concurrent.futures import ThreadPoolExecutor
 
 from . import common
 
-MODULES = ["CoapVerif.Props.C14", "CoapVerif.Props.C14Current", "CoapVerif.Props.C14Validity"]
+MODULES = ["CoapVerif.Props.C14", "CoapVerif.Props.C14Current", "CoapVerif.Props.C14Validity", "CoapVerif.Props.C14Copy"]
 CORPUS = os.path.join(common.VERIF, "corpus", "C14")
 WRITES = ("store", "los", "replace", "delete", "lad", "ladall", "swf", "loswf", "loswfn", "rwf", "dwf", "ladwf", "clos", "sweep")
 WHOLE = ("ladall", "copy", "len", "range", "range2", "sweep")
@@ -56,6 +60,12 @@ VU_I64_FIRST_PAST = VU_I64_LAST + 1
 VU_2263 = 8300000000
 VU_MAX = (2 ** 63 - 1) // 10 ** 9                          # 9223372036
 SWEEP_FAR = 9000000000
+# Table sizes that are part of the generated set for good: around 1024 entries (a batch / a bucket-array size a copy, a sweep or a
+# resize may treat differently from "small") and its multiples.  Go's map iteration order is random per map object, so WHERE in an
+# iteration the few keys the writer touches fall differs from execution to execution: the programs let the writer touch several
+# keys twice, and every schedule is a fresh draw.
+BIG_SIZES = (1024, 1025, 2048, 2049)
+BIG_SIZES_THOROUGH = (1023, 1536, 3072, 4096, 4097, 8193)
 
 
 # ---------------------------------------------------------------- build (overlay)
@@ -119,9 +129,10 @@ def run_harness(ctx, exe, test, lines, tag, timeout=3000):
 def drive(driver, verb, lines, workers=12):
     if not lines:
         return []
-    n = max(1, min(workers, len(lines) // 300 + 1))
-    size = (len(lines) + n - 1) // n
-    chunks = [lines[i:i + size] for i in range(0, len(lines), size)]
+    # a line whose history fills a table with a thousand entries costs the driver about as much as fifty ordinary ones
+    n = max(1, min(workers, len(lines), (len(lines) + 50 * sum(1 for l in lines if ":fill:" in l)) // 300 + 1))
+    # dealt out in turn: the expensive lines (tables of thousands of entries) stand next to each other in the input
+    chunks = [lines[i::n] for i in range(n)]
 
     def one(ch):
         rc, out, _ = common.pipe_lines([driver, verb], ch)
@@ -130,7 +141,10 @@ def drive(driver, verb, lines, workers=12):
         res = list(ex.map(one, chunks))
     if any(r is None for r in res):
         return None
-    return [l for r in res for l in r]
+    out = [None] * len(lines)
+    for i, r in enumerate(res):
+        out[i::n] = r
+    return out
 
 
 # ---------------------------------------------------------------- programs
@@ -298,6 +312,9 @@ def gen_programs(ctx):
             ([], [["clos:1:6@%d" % VU_I64_FIRST_PAST], ["clos:1:7@%d" % VU_MAX]], ["cload:1", "sweep", "cload:1"]),
             ([], [["clos:1:6@110", "cload:2"], ["clos:2:7@110", "cload:1"]], ["tick:200", "cload:1", "sweep", "cload:2"])):
         P.append(fmt_prog("bwrecv", pre, ths, post))
+    # 4c. tables that have grown: a whole-table operation against a writer that touches several keys one after the other.  Keys
+    #     1..3 are the writer's, `fill:<n>:1000:0` (n Stores) brings the table to the size; sizes BIG_SIZES (+ more when thorough)
+    P += gen_big_programs(ctx, rng)
     # 5. random programs: 2-3 threads x 1-3 operations on 1-2 keys
     n = 6000 if thorough else 500
     for i in range(n):
@@ -317,6 +334,51 @@ def gen_programs(ctx):
                 pre.append("tick:10")
             post = ["cload:%d" % k for k in range(1, nk + 1)] + ["load:%d" % k for k in range(1, nk + 1)] + ["len"]
         P.append(fmt_prog(kind, pre, threads, post, mx=4000 if thorough else 1200))
+    return P
+
+
+def big_pre(kind, size, specials=3):
+    at = "@100" if kind == "cache" else ""
+    return ["store:%d:%d%s" % (k, 4 + k, at) for k in range(1, specials + 1)] + ["fill:%d:1000:0" % (size - specials)]
+
+
+def gen_big_programs(ctx, rng):
+    thorough = ctx.tier == "thorough"
+    P = []
+    sizes = BIG_SIZES + (BIG_SIZES_THOROUGH if thorough else ())
+    fr = Fresh(10)
+    v = fr
+    mx = 3000 if thorough else 600
+    for kind in ("map", "cache"):
+        at = "@100" if kind == "cache" else ""
+        st = lambda k: "store:%d:%d%s" % (k, v(), at)
+        post = (["load:1", "load:3", "len"] if kind == "map" else ["cload:1", "load:3", "len"])
+        for size in sizes:
+            if kind == "cache" and size not in (1025, 2048, 4097):
+                continue
+            # the copy against a writer that goes over its keys twice: the copy is the table at one instant of that sequence
+            P.append(fmt_prog(kind, big_pre(kind, size), [["copy"], [st(1), st(2), st(3), st(1), st(2), st(3)]], post, mx=mx))
+            # … against a writer that changes the SIZE (a new key far from the others, a removed one)
+            P.append(fmt_prog(kind, big_pre(kind, size), [["copy"], [st(1), "delete:2", st(900000), st(3)]], post, mx=mx))
+        for size in (1025, 2049):
+            for whole in (["len"], ["copy", "len"]) + ((["ladall"], ["range2"], ["range:1"], ["ladall", "copy"]) if kind == "map" else ()):
+                P.append(fmt_prog(kind, big_pre(kind, size), [whole, [st(1), "lad:2", st(3)]], post, mx=mx))
+    # two copies and a writer; a copy while LoadAndDeleteAll hands the table to its caller and a writer refills
+    P.append(fmt_prog("map", big_pre("map", 2048), [["copy"], ["copy"], ["store:1:%d" % v(), "store:2:%d" % v(), "store:1:%d" % v()]], ["len"], mx=mx))
+    P.append(fmt_prog("map", big_pre("map", 2049), [["copy"], ["ladall"], ["store:1:%d" % v(), "store:2:%d" % v()]], ["load:1", "len"], mx=mx))
+    # seeded: sizes between and beyond the fixed ones, 2-5 writer operations on 2-4 of the writer's keys
+    for i in range(60 if thorough else 10):
+        kind = "cache" if rng.random() < 0.3 else "map"
+        at = "@100" if kind == "cache" else ""
+        size = rng.choice([rng.randint(1020, 1030), rng.randint(1400, 2100), rng.randint(2040, 2060), rng.randint(3000, 5000)])
+        nk = rng.choice([2, 3, 4])
+        w = []
+        for _ in range(rng.choice([2, 3, 4, 5])):
+            k = rng.randint(1, nk)
+            w.append(rng.choice(["store:%d:%d%s" % (k, v(), at), "store:%d:%d%s" % (k, v(), at), "replace:%d:%d%s" % (k, v(), at),
+                                 "delete:%d" % k, "lad:%d" % k, "los:%d:%d%s" % (k, v(), at)]))
+        P.append(fmt_prog(kind, big_pre(kind, size, nk), [[rng.choice(["copy", "copy", "copy", "len"])], w],
+                          ["load:1", "load:2", "len"], mx=mx))
     return P
 
 
@@ -361,6 +423,13 @@ def nontrivial(history):
 # wrapper kinds whose operations are more than one step of the table (or hold its lock across a scheduling point): their
 # histories are judged against the sequential specification, not replayed on the step model
 JUDGE_ONLY = ("bwsend", "obstab", "bwrecv", "mapcb", "midtab")
+
+
+def big_size(prog):
+    """entries in the table when the threads start (programs of gen_big_programs: distinct stores, then a fill)"""
+    m = re.search(r"pre=(\S+)", prog)
+    ops = m.group(1).split(",") if m else []
+    return sum(int(o.split(":")[1]) if o.startswith("fill:") else 1 for o in ops if o.startswith(("fill:", "store:")))
 
 
 def clause_of(prog):
@@ -422,7 +491,7 @@ def minimise(ctx, art, coop, prog, sched, crash=False):
     sp = lambda s: [] if s == "-" else s.split(",")
     parts = [sp(pre)] + [sp(t.split("=", 1)[1]) for t in ths.split()] + [sp(post)]
     best = (prog, sched)
-    budget = 40
+    budget = 16 if ":fill:" in prog or "=fill:" in prog else 40     # exploring + judging a program on a grown table costs seconds
     changed = True
     while changed and budget > 0:
         changed = False
@@ -529,6 +598,9 @@ def explore(ctx, art, coop):
     ctx.count("schedules with CheckExpirations(now) where now is not the clock (ahead / behind)", nsw)
     ctx.count("schedules in which a sweep ahead of the clock removed an entry not yet expired by the clock",
               sum(1 for _, s in runs if re.search(r"c\d+:sweep:200 (?:\S+ )*?r\d+:x=\[[^\]]*@100", s)))
+    ctx.count("schedules on a table that has grown (1024 … 8193 entries; CopyData / LoadAndDeleteAll / Range2 / Length against a writer)",
+              sum(1 for p, _ in runs if ",fill:" in p))
+    ctx.count("… of these on a table of more than 1024 entries", sum(1 for p, _ in runs if ",fill:" in p and big_size(p) > 1024))
     ctx.cov["evaluations"] = len(runs)
     ctx.cov["distinct_nontrivial"] = distinct
     ctx.cov["traces_validated_against_impl"] = ok
@@ -692,7 +764,7 @@ def run(ctx):
     ctx.cov["exhaustive"] = True
     ctx.cov["rule"] = ("programs: every pair of operations of the full Map API on one key (3 initial maps), triples of the "
                        "store-if-absent / read-modify-write family, every pair of Cache operations (5 initial states incl. expired "
-                       "entries; incl. CheckExpirations(now) with now behind / at / ahead of the clock; incl. validities beyond the year 2262 - the int64-nanosecond boundary, clock + MaxInt64 ns), sweep against two threads, plus seeded random programs (2-3 threads x 1-3 operations, 1-2 keys). "
+                       "entries; incl. CheckExpirations(now) with now behind / at / ahead of the clock; incl. validities beyond the year 2262 - the int64-nanosecond boundary, clock + MaxInt64 ns), sweep against two threads, whole-table operations against a multi-key writer on tables of 1024 / 1025 / 2048 / 2049 (thorough: up to 8193) entries, plus seeded random programs (2-3 threads x 1-3 operations, 1-2 keys). "
                        "For EVERY program ALL interleavings at critical-section granularity are executed on the real code "
                        "(cooperative scheduler through a build overlay of the mutex; capped per random program, truncations "
                        "counted in the histogram). evaluations = schedules executed + stress rounds. A history is non-trivial when "
@@ -715,14 +787,25 @@ def replay(ctx, rep):
         return 1
     bad = 0
     for l in lines:
-        out = run_harness(ctx, coop, "TestC14", [l], "replay") or []
-        for o in out:
-            if not o.startswith("sched "):
-                continue
-            j = drive(art["driver"], "judge", [o])
-            print("input : %s\nimpl  : %s\njudge : %s" % (l, o, j[0] if j else None))
-            if not j or j[0] != "lin ok":
-                bad += 1
+        # a program on a grown table: which of the writer's keys an iteration meets before / after a given point is Go's choice
+        # (map iteration order is random per map object), so one schedule is executed up to 16 times
+        tries = 16 if ":fill:" in l or "=fill:" in l else 1
+        for attempt in range(tries):
+            out = run_harness(ctx, coop, "TestC14", [l], "replay") or []
+            found = False
+            for o in out:
+                if not o.startswith("sched "):
+                    continue
+                j = drive(art["driver"], "judge", [o])
+                ok = bool(j) and j[0] == "lin ok"
+                if not ok or attempt == tries - 1:
+                    print("input : %s\nimpl  : %s\njudge : %s%s" % (l, o, j[0] if j else None,
+                                                                    "  (execution %d of %d)" % (attempt + 1, tries) if tries > 1 else ""))
+                if not ok:
+                    bad += 1
+                    found = True
+            if found:
+                break
     if bad:
         print("VIOLATION property=C14 replay=(replayed) still reproduces")
     return 1 if bad else 0
